@@ -112,6 +112,10 @@ func signedMessage(r *rng, key []byte, nBefore, nAfter int, withMI, fp bool) []b
 	}
 	if fp {
 		setters = append(setters, stun.Fingerprint)
+		// sometimes more attributes behind FINGERPRINT (it no longer verifies; MESSAGE-INTEGRITY still does)
+		for k := r.intn(6) - 3; k > 0; k-- {
+			setters = append(setters, stun.RawAttribute{Type: stun.AttrType(0x8050 + r.intn(8)), Value: r.bytes(r.intn(10))})
+		}
 	}
 	m := new(stun.Message)
 	if err := m.Build(setters...); err != nil {
@@ -325,6 +329,18 @@ func runC05(o *out, thorough bool, r *rng, _ []string) map[string]interface{} {
 		nmsg = 600
 	}
 	concurrentFingerprints(o, map[bool]int{false: 300, true: 3000}[thorough])
+	// FINGERPRINT (and MESSAGE-INTEGRITY) added to a Message that has no header bytes yet: a new one, one that
+	// was Reset, one whose buffer is shorter than a header, one that holds only a header
+	for _, st := range [][]string{{"0", "-", "-"}, {"20", fHex(make([]byte, 120)), "-"}, {"7", fHex(bytes.Repeat([]byte{0xEE}, 64)), "-"},
+		{"0", fHex(bytes.Repeat([]byte{0xEE}, 19)), "-"}, {"0", "-", fHex(r.validMessage(3, 20))}} {
+		for _, pre := range [][]string{{}, {numsField(9)}, {numsField(2)}, {numsField(9), numsField(2)}, {numsField(1, 0)}, {numsField(1, 0), numsField(9)}} {
+			for _, sign := range [][]string{{"7," + numsField(11)}, {"7," + withBytes([]int{10}, r.bytes(20)), "7," + numsField(11)}, {"7," + numsField(11), numsField(3)}} {
+				ops := append(append([]string{}, pre...), sign...)
+				o.run(301, append(append([]string{}, st...), ops...), true)
+				o.count("fingerprint-without-header-histories")
+			}
+		}
+	}
 	for i := 0; i < nmsg; i++ {
 		key := r.bytes(r.intn(30))
 		data := signedMessage(r, key, r.intn(5), 0, i%2 == 0, true)
@@ -347,7 +363,8 @@ func runC05(o *out, thorough bool, r *rng, _ []string) map[string]interface{} {
 			if stun.Decode(data, d) == nil {
 				before := append([]byte(nil), d.Raw...)
 				_ = stun.MessageIntegrity(append(append([]byte(nil), key...), 0x55)).Check(d)
-				if !bytes.Equal(before, d.Raw) || stun.Fingerprint.Check(d) != nil {
+				_, fpValid := rfcFingerprintVerdict(data) // not when other attributes follow the FINGERPRINT
+				if !bytes.Equal(before, d.Raw) || (fpValid && stun.Fingerprint.Check(d) != nil) {
 					o.fail("fingerprint-rejected-after-failed-integrity-check", "701 "+fHex(data)+" - 7,0 "+fHex(key))
 				}
 				o.count("fp-after-failed-mi-check")
